@@ -76,6 +76,7 @@ def leftrec_grammar(rng, idx):
     r = rng
     leftrec_grammar.rec_first = True
     leftrec_grammar.nullbase = False
+    leftrec_grammar.usual = False
     ops1 = r.sample(['+', '-', '|'], 2)
     ops2 = r.sample(['*', '/', '&'], 2)
     atom_kind = r.choice(['num', 'ident', 'paren'])
@@ -97,6 +98,7 @@ def leftrec_grammar(rng, idx):
             alts = [rec, base]
             rec_first = True
         leftrec_grammar.rec_first = rec_first
+        leftrec_grammar.usual = rec_first      # `E = l:*E op r:Num | … | b:Num`: the shape the property spells out (oracle in rel_C07)
         rules.append(dict(kind='rule', dirs=['export', 'leftrec'] + pos + noskip, name='E', body=('choice', alts)))
         rules.append(num)
     elif style == 'nullbase':
@@ -230,7 +232,8 @@ def wsmemo_grammar(rng):
     F = lambda n, t: ('field', n, False, t)
     alts = [gen.seq(F('a', 'A')), gen.seq(F('b', 'B')), gen.seq(F('c', 'Cc'))]
     r.shuffle(alts)
-    rules = [dict(kind='rule', dirs=['export'], name='S', body=('choice', alts)),
+    # S itself does not skip, so its alternatives all start at the same offset, before any blanks
+    rules = [dict(kind='rule', dirs=['export', 'no_skip_ws'], name='S', body=('choice', alts)),
              dict(kind='rule', dirs=[], name='A', body=gen.choice(gen.seq(F('v', 'M'), gen.lit('x')))),
              dict(kind='rule', dirs=['no_skip_ws'], name='B', body=gen.choice(gen.seq(F('v', 'M'), gen.lit('y')))),
              dict(kind='rule', dirs=[], name='Cc', body=gen.choice(gen.seq(F('v', 'M'), gen.lit('z'))))]
@@ -269,6 +272,62 @@ def caseless_grammar(rng):
     while len(ins) < 8:
         ins.add(''.join(r.choice([ch, others[0], others[1], 'a', 'b']) for _ in range(r.randint(1, 4))))
     return rules, [('S', s) for s in sorted(ins)]
+
+
+def lookfar_grammar(rng):
+    """lookaheads whose body gets further than anything after them: !(t1 t2 t3) / &(t1 t2 t3) followed by constructs that
+    fail earlier than the body did – the attempts inside a lookahead that did not make the parse fail must not be reported"""
+    r = rng
+    a, b, c, d = r.sample('abcdefgh', 4)
+    F = lambda n, t: ('field', n, False, t)
+    body3 = gen.choice(gen.seq(gen.lit(a), gen.lit(b), gen.lit(c)))
+    body2 = gen.choice(gen.seq(gen.lit(a), gen.lit(b + c)))
+    kind = r.choice(['neg', 'neg', 'pos', 'negrule', 'nested'])
+    rules = []
+    if kind == 'neg':
+        alt1 = gen.seq(('neg', ('group', r.choice([body3, body2]))), gen.lit(a), gen.lit(d))
+    elif kind == 'pos':
+        alt1 = gen.seq(('pos', ('group', gen.choice(gen.seq(gen.lit(a), ('opt', gen.choice(gen.seq(gen.lit(b), gen.lit(c)))))))), gen.lit(a), gen.lit(d))
+    elif kind == 'negrule':
+        alt1 = gen.seq(('neg', F(None, 'K')), gen.lit(a), gen.lit(d))
+        rules.append(dict(kind='rule', dirs=r.choice([[], ['no_skip_ws'], ['memoize']]), name='K', body=body3))
+    else:
+        alt1 = gen.seq(('neg', ('group', gen.choice(gen.seq(gen.lit(a), ('neg', ('group', gen.choice(gen.seq(gen.lit(b), gen.lit(c)))))), gen.seq(gen.lit(b))))),
+                       gen.lit(a), gen.lit(d))
+    alts = [alt1] + ([gen.seq(gen.lit(a), gen.lit(a))] if r.random() < 0.5 else [])
+    top = dict(kind='rule', dirs=['export'] + (['no_skip_ws'] if r.random() < 0.4 else []), name='S', body=('choice', alts))
+    letters = [a, b, c, d]
+    ins = set()
+    while len(ins) < 14:
+        ins.add(''.join(r.choice(letters + [' ']) if r.random() < 0.3 else x for x in r.choice([a + b + d, a + b + c, a + b, a + d, a, a + b + b, a + a, a + c])))
+    return [top] + rules, [('S', s) for s in sorted(ins)]
+
+
+def spell_directives(rng, rules, mode):
+    """another spelling of the same grammar: directives permuted (the relative order of the @check directives is kept –
+    that order is meaningful), optionally with the flag directives written twice"""
+    out = []
+    for r in rules:
+        r = copy.deepcopy(r)
+        if r['kind'] == 'rule':
+            ds = list(r['dirs'])
+            checks = [d for d in ds if isinstance(d, tuple)]
+            flags = [d for d in ds if not isinstance(d, tuple)]
+            if mode == 'reverse':
+                flags = flags[::-1]
+                slots = checks + flags
+            elif mode == 'dup':
+                flags = flags + flags[::-1]
+                slots = flags[:len(flags) // 2] + checks + flags[len(flags) // 2:]
+            else:
+                rng.shuffle(flags)
+                slots = list(flags)
+                for c in checks:      # insert the checks at random places, in their original order
+                    lo = max([k for k, d in enumerate(slots) if isinstance(d, tuple)] + [-1]) + 1
+                    slots.insert(rng.randint(lo, len(slots)), c)
+            r['dirs'] = slots
+        out.append(r)
+    return out
 
 
 def probe_grammar(rng):
@@ -381,6 +440,23 @@ def build_cases(seed, tier):
     for i in range(4):
         rules, ins = caseless_grammar(rng)
         add('caseless%d' % i, rules, False, ins, ['multibyte', 'expect_reject'])
+    # directive spellings (C12): the same grammar with its directives in another order / written twice
+    for i in range(6 if tier == 'quick' else 20):
+        g = gen.Gen(rng, 'hooks', dict(checks=True, externs=False))
+        rules = g.build()
+        ck = [r_ for r_ in rules if r_['kind'] == 'rule']
+        for r_ in rng.sample(ck, min(2, len(ck))):
+            have = [d for d in r_['dirs'] if isinstance(d, tuple)]
+            for fn in rng.sample(['chk_hash2', 'chk_hash3', 'chk_true'], 2 if not have else 1):
+                r_['dirs'].append(('check', ['hooks', fn]))
+        ins = std_inputs(rules, g.multibyte, ni, maxlen)
+        for v, mode in enumerate(['orig', 'shuffle', 'reverse', 'dup']):
+            add('spell%dv%d' % (i, v), rules if v == 0 else spell_directives(rng, rules, mode), False, ins, ['spell', 'hooks'],
+                group='spell%d' % i, variant=v)
+    # lookaheads that get further than what follows them (error position: C10)
+    for i in range(8 if tier == 'quick' else 24):
+        rules, ins = lookfar_grammar(rng)
+        add('lookfar%d' % i, rules, False, ins, ['mix', 'lookfar'])
     # left recursion
     n, ni = size('leftrec')
     for i in range(n):
@@ -389,7 +465,8 @@ def build_cases(seed, tier):
         for ex in gen.exported_rules(rules):
             for s in leftrec_inputs(rng, rules, ni):
                 ins.append((ex, s))
-        add('lr%d' % i, rules, False, ins, ['leftrec'] + (['recfirst'] if leftrec_grammar.rec_first else []))
+        add('lr%d' % i, rules, False, ins, ['leftrec'] + (['recfirst'] if leftrec_grammar.rec_first else []) +
+            (['lrusual'] if leftrec_grammar.usual else []))
     # include twins
     n, ni = size('incl')
     i = 0
